@@ -134,8 +134,10 @@ class World:
 
 
 def explore(world, starts, depth, res, on_step, max_states=200000,
-            k_every=50):
-    """breadth-first over (c, frames, wkc_err, run)"""
+            k_every=50, maxinflight=3):
+    """breadth-first over (c, frames, wkc_err, run, srun): run counts the
+    consecutive frames sent back to the bus without the group program,
+    srun every consecutive frame the dispatcher handled without it"""
     seen = set()
     parents = {}
     world.parents = parents
@@ -144,7 +146,7 @@ def explore(world, starts, depth, res, on_step, max_states=200000,
     fresh = (0, (False,) * nwr, ("ok",) * nwr)
     for c in starts:
         for w in (0, 5):
-            s = (c & 0xff, (), 1 if w else 0, 0)
+            s = (c & 0xff, (), 1 if w else 0, 0, 0)
             seen.add(s)
             q.append((s, 0))
     ntrans = 0
@@ -152,16 +154,16 @@ def explore(world, starts, depth, res, on_step, max_states=200000,
         s, d = q.popleft()
         if d >= depth:
             continue
-        c, frames_, w, run = s
+        c, frames_, w, run, srun = s
         succ = []
         # inject
-        if len(frames_) < 3:
-            succ.append(((c, tuple(sorted(frames_ + (fresh,))), w, run),
-                         "inject"))
+        if len(frames_) < maxinflight:
+            succ.append(((c, tuple(sorted(frames_ + (fresh,))), w, run,
+                          srun), "inject"))
         for i, fs in enumerate(frames_):
             rest = frames_[:i] + frames_[i + 1:]
             # lose
-            succ.append(((c, rest, w, run), ("lose", fs)))
+            succ.append(((c, rest, w, run, srun), ("lose", fs)))
             # deliver
             world.set_state(c, 5 if w else 0)
             frame = world.frame(fs)
@@ -172,7 +174,8 @@ def explore(world, starts, depth, res, on_step, max_states=200000,
                        out=world.abstract(out) if len(out) == len(frame)
                        else None, out_frame=out, in_frame=frame,
                        c_before=c, c_after=c2 & 0xff, w_before=5 if w else 0,
-                       w_after=w2, run_before=run)
+                       w_after=w2, run_before=run, srun_before=srun,
+                       inflight=len(frames_))
             if ntrans % k_every == 0:
                 world.set_state(c, 5 if w else 0)
                 rk, ok = world.step_k(frame)
@@ -185,6 +188,7 @@ def explore(world, starts, depth, res, on_step, max_states=200000,
             # count; the run is the number of consecutive frames sent back
             # to the bus without the group program
             run2 = 0 if ran else (min(run + 1, 3) if ret == TX else run)
+            srun2 = 0 if ran else min(srun + 1, 4)
             if ret == TX and rec["out"] is not None:
                 idx0, en, wk_ = rec["out"]
                 # the bus executes enabled writers: counters become
@@ -200,10 +204,10 @@ def explore(world, starts, depth, res, on_step, max_states=200000,
                 for v in variants:
                     nf = (idx0, en, v)
                     succ.append(((c2 & 0xff, tuple(sorted(rest + (nf,))),
-                                  1 if w2 else 0, run2),
+                                  1 if w2 else 0, run2, srun2),
                                  ("deliver", fs, "TX", "ran" if ran else "-")))
             else:
-                succ.append(((c2 & 0xff, rest, 1 if w2 else 0, run2),
+                succ.append(((c2 & 0xff, rest, 1 if w2 else 0, run2, srun2),
                              ("deliver", fs, "PASS" if ret == PASS else ret,
                               "ran" if ran else "-")))
         for s2, how in succ:
